@@ -701,6 +701,53 @@ theorem hardLines_eq_split (cells : List VaxisModel.Model.Wrap.Cell) :
     obtain ⟨ls, h1, h2⟩ := hardLoop_split cells [] hne cells.length hlen
     simp only [hardAll, hardScan, he', Bool.false_eq_true, ↓reduceIte, h1, h2]
 
+/-! ### the surface is wide enough for every line shown (up to `Max.Width`) -/
+
+theorem lineWidth_toNat : ∀ (l : List Cell), (∀ c ∈ l, 0 ≤ c.w) → width l < 65536 → (lineWidth l).toNat = width l := by
+  intro l
+  induction l with
+  | nil => intro _ _; rfl
+  | cons c cs ih2 =>
+    intro hp hs
+    simp only [width, List.map_cons, List.sum_cons] at hs
+    have := ih2 (fun c' hc' => hp c' (by simp [hc'])) (by simp only [width]; omega)
+    simp only [lineWidth, width, List.map_cons, List.sum_cons]
+    rw [UInt16.add_comm, u16_toNat _ _ (hp c (by simp)) (by rw [this]; simp only [width]; omega), this]
+    simp only [width]; omega
+
+theorem widthFold_ge (maxW : UInt16) : ∀ (lines : List (List Cell)) (w : UInt16), w ≤ maxW →
+    (∀ l ∈ lines, (∀ c ∈ l, 0 ≤ c.w) ∧ width l < 65536) →
+    w.toNat ≤ (widthFold maxW lines w).toNat ∧ (widthFold maxW lines w) ≤ maxW ∧
+    ∀ l ∈ lines, min (width l) maxW.toNat ≤ (widthFold maxW lines w).toNat := by
+  intro lines
+  induction lines with
+  | nil => intro w hw _; exact ⟨Nat.le_refl _, hw, by simp⟩
+  | cons l ls ih =>
+    intro w hw hall
+    have hl := hall l (by simp)
+    have hlw := lineWidth_toNat l hl.1 hl.2
+    have hw' := UInt16.le_iff_toNat_le.1 hw
+    simp only [widthFold]
+    generalize hw1 : (if w < lineWidth l then lineWidth l else w) = w1
+    have hw1n : w1.toNat = max w.toNat (width l) := by
+      rw [← hw1]
+      by_cases h1 : w < lineWidth l
+      · have := UInt16.lt_iff_toNat_lt.1 h1; simp only [h1, ↓reduceIte]; omega
+      · have := UInt16.le_iff_toNat_le.1 (UInt16.not_lt.1 h1); simp only [h1, ↓reduceIte]; omega
+    generalize hw2 : (if w1 > maxW then maxW else w1) = w2
+    have hw2n : w2.toNat = min w1.toNat maxW.toNat := by
+      rw [← hw2]
+      by_cases h1 : w1 > maxW
+      · have := UInt16.lt_iff_toNat_lt.1 h1; simp only [h1, ↓reduceIte]; omega
+      · have := UInt16.le_iff_toNat_le.1 (UInt16.not_lt.1 h1); simp only [h1, ↓reduceIte]; omega
+    have hw2le : w2 ≤ maxW := by rw [UInt16.le_iff_toNat_le]; omega
+    obtain ⟨i1, i2, i3⟩ := ih w2 hw2le (fun l' hl' => hall l' (by simp [hl']))
+    refine ⟨by omega, i2, ?_⟩
+    intro l' hl'
+    rcases List.mem_cons.mp hl' with rfl | hl'
+    · omega
+    · exact i3 l' hl'
+
 /-! ### every line is at most as wide as the text -/
 
 open VaxisModel.Model.Wrap VaxisModel.Lemmas.Wrap in
@@ -790,5 +837,50 @@ theorem scanAll_sumW {σ : Type} (o : σ → List VaxisModel.Model.Wrap.Cell →
         · have := ih _ _ _ hls l hl
           omega
       · cases h
+
+/-! ### prefix sums -/
+
+open VaxisModel.Model.Wrap VaxisModel.Lemmas.Wrap in
+theorem sumW_take_getElem (t : List VaxisModel.Model.Wrap.Cell) (j : Nat) (c : VaxisModel.Model.Wrap.Cell)
+    (h : t[j]? = some c) : sumW (t.take j) + c.w ≤ sumW t := by
+  induction t generalizing j with
+  | nil => simp at h
+  | cons a as ih =>
+    cases j with
+    | zero =>
+      simp only [List.getElem?_cons_zero, Option.some.injEq] at h
+      subst h
+      simp [sumW]
+    | succ j =>
+      simp only [List.getElem?_cons_succ] at h
+      have := ih j h
+      simp only [List.take_succ_cons, sumW]
+      omega
+
+open VaxisModel.Model.Wrap VaxisModel.Lemmas.Wrap in
+/-- `trimRight l` is a prefix of `l`. -/
+theorem trimRight_prefix (l : List VaxisModel.Model.Wrap.Cell) (j : Nat) (c : VaxisModel.Model.Wrap.Cell)
+    (h : (trimRight l)[j]? = some c) : l[j]? = some c ∧ l.take j = (trimRight l).take j := by
+  have hl := trim_append_trailing l
+  have hj : j < (trimRight l).length := by
+    rcases Nat.lt_or_ge j (trimRight l).length with h' | h'
+    · exact h'
+    · rw [List.getElem?_eq_none h'] at h; cases h
+  constructor
+  · conv => lhs; rw [← hl]
+    rw [List.getElem?_append_left hj]; exact h
+  · conv => lhs; rw [← hl]
+    rw [List.take_append_of_le_length (by omega)]
+
+open VaxisModel.Model.Wrap in
+theorem scanAll_width_zero {σ : Type} (o : σ → List VaxisModel.Model.Wrap.Cell → Nat × Bool × σ) (ini : σ)
+    (fuel : Nat) (rest : List VaxisModel.Model.Wrap.Cell) (st : σ) (ls : List (List VaxisModel.Model.Wrap.Cell))
+    (h : scanAll o ini 0 fuel rest st = .ok ls) : ls = [] := by
+  cases fuel with
+  | zero => simp [scanAll] at h
+  | succ n =>
+    have : scan o ini 0 rest st = .stop := by simp [scan]
+    simp only [scanAll, this] at h
+    cases h; rfl
 
 end VaxisModel.Lemmas.WrapDraw
